@@ -6,7 +6,7 @@
                       with the same byte scanner, a CStrLit is ONE string token,
                       a CName is a dotted identifier, a CNum a (signed) numeric
                       literal, a CFile only occurs inside a line comment.
-      Both drop white space and // comments.  Tokens never span chunk
+      Both drop white space and // comments (and refuse a line break before ++).  Tokens never span chunk
       boundaries except a string (the path of an ES6 import) and a comment (the
       header line): those are lexer modes carried from chunk to chunk.
 
@@ -182,6 +182,16 @@ Definition num_span (s : bstr) : option nat :=
 Definition ls_at (c : N) (r : bstr) : bool :=
   match r with c1 :: c2 :: _ => (c =? 226) && (c1 =? 128) && ((c2 =? 168) || (c2 =? 169)) | _ => false end.
 
+(* a line terminator may not stand between an operand and a postfix ++ (a restricted production of ECMAScript:
+   the ++ would start a new statement).  Tokens do not record line breaks, so the lexer refuses the text: after a
+   line terminator, the next token must not be ++ *)
+Fixpoint skip_spaces (s : bstr) : bstr :=
+  match s with
+  | c :: r => if is_space c then skip_spaces r else s
+  | [] => []
+  end.
+Definition incr_next (s : bstr) : bool := is_prefix [43; 43] (skip_spaces s).
+
 (* [skip]: bytes of a token already emitted *)
 Fixpoint lex_text (skip : nat) (m : lexmode) (s : bstr) : option (list jstoken * lexmode) :=
   match s with
@@ -192,8 +202,8 @@ Fixpoint lex_text (skip : nat) (m : lexmode) (s : bstr) : option (list jstoken *
       | O =>
           match m with
           | LComment =>
-              if (c =? 10) || (c =? 13) then lex_text 0 LNormal r
-              else if ls_at c r then lex_text 2 LNormal r
+              if (c =? 10) || (c =? 13) then (if incr_next r then None else lex_text 0 LNormal r)
+              else if ls_at c r then (if incr_next (drop 2 r) then None else lex_text 2 LNormal r)
               else lex_text 0 LComment r
           | LStr q =>
               if c =? q then option_map (fun '(ts, m') => (TStr :: ts, m')) (lex_text 0 LNormal r)
@@ -211,7 +221,7 @@ Fixpoint lex_text (skip : nat) (m : lexmode) (s : bstr) : option (list jstoken *
                                end
               else None
           | LNormal =>
-              if is_space c then lex_text 0 LNormal r
+              if is_space c then (if ((c =? 10) || (c =? 13)) && incr_next r then None else lex_text 0 LNormal r)
               else if (c =? 39) || (c =? 34) then lex_text 0 (LStr c) r
               else if is_ident_start c then
                 let n := span is_ident_part r in
